@@ -762,6 +762,10 @@ func checkC07NoScriptOnError(p *Prog, r *Report, ru *Rule, sh *ssa.Function) {
 		ru.OK(fnName(sh)+":execute-into-fresh-buffer", posOf(exec), "the template is executed into a buffer allocated in this call")
 	} else if buf == ssa.Value(w) {
 		ru.Bad(fnName(sh)+":execute-into-fresh-buffer", posOf(exec), "the template is executed straight into the response: a failing template sends a partial script")
+	} else if why, ok := pooledBufferOwned(sh, buf, exec); ok {
+		ru.OK(fnName(sh)+":execute-into-fresh-buffer", posOf(exec), "%s", why)
+	} else if "" != why {
+		ru.Bad(fnName(sh)+":execute-into-fresh-buffer", posOf(exec), "%s", why)
 	} else {
 		ru.Bad(fnName(sh)+":execute-into-fresh-buffer", posOf(exec), "the template is executed into %s, which is not a buffer freshly allocated for this request (left-overs of an earlier, failed request can be sent)", rootsString(valueRoots(buf, nil)))
 	}
@@ -934,4 +938,70 @@ func bufferFills(fn *ssa.Function, buf ssa.Value) (fills []ssa.Value, bad []stri
 		}
 	})
 	return fills, bad
+}
+
+// pooledBufferOwned: buf is a *bytes.Buffer taken from a sync.Pool in fn which
+// is emptied (Reset) on every way from the Get to the execution at exec, and
+// which is not handed back to the pool (other than by a deferred call) at a
+// point from which fn still uses it.  Then it is, for this request, as good
+// as freshly allocated: nothing of an earlier request is in it and nobody
+// else can get hold of it while it is in use (sync.Pool's contract is
+// trusted).  ("", false): not a pooled buffer at all.
+func pooledBufferOwned(fn *ssa.Function, buf ssa.Value, exec *ssa.Call) (string, bool) {
+	ta, ok := buf.(*ssa.TypeAssert)
+	if !ok {
+		return "", false
+	}
+	get, ok := ta.X.(*ssa.Call)
+	if !ok || "(*sync.Pool).Get" != calleeName(get.Common()) {
+		return "", false
+	}
+	reset := false
+	var early ssa.Instruction
+	for _, f := range withAnons(fn) {
+		eachInstr(f, func(i ssa.Instruction) {
+			c := callCommon(i)
+			if nil == c || 0 == len(c.Args) {
+				return
+			}
+			switch calleeName(c) {
+			case "(*bytes.Buffer).Reset":
+				if stripConv(c.Args[0], false) == buf && f == fn {
+					if ci, isCall := i.(*ssa.Call); isCall && instrDominates(ci, exec) {
+						reset = true
+					}
+				}
+			case "(*sync.Pool).Put":
+				if len(c.Args) < 2 || stripConv(c.Args[1], false) != buf {
+					return
+				}
+				if _, isDefer := i.(*ssa.Defer); isDefer || f != fn {
+					return
+				}
+				/* Handed back here: no use of the buffer may follow. */
+				eachInstr(fn, func(j ssa.Instruction) {
+					if j == i {
+						return
+					}
+					uses := false
+					var ops []*ssa.Value
+					for _, o := range j.Operands(ops) {
+						if nil != *o && stripConv(*o, false) == buf {
+							uses = true
+						}
+					}
+					if uses && canReach(locOf(i), j) {
+						early = i
+					}
+				})
+			}
+		})
+	}
+	switch {
+	case nil != early:
+		return "the pooled buffer the template is executed into is handed back to the pool while it is still in use: another request can write into what is being sent", false
+	case !reset:
+		return "the template is executed into a pooled buffer which is not emptied first on every way there: left-overs of an earlier, failed request can be sent", false
+	}
+	return "the template is executed into a pooled buffer which is emptied before use and handed back only when this request is done with it", true
 }
